@@ -123,6 +123,60 @@ pub fn tsc_no_attrs_local(l: &syn::Local) -> String {
     tsc(&c)
 }
 
+/// An order-preserving element-wise map of a list, however it is spelled:
+///   `LIST.into_iter().map(|v| BODY).collect()`  (optionally `::<Result<Vec<_>, _>>()?`),
+///   `{ let mut out = Vec::with_capacity(..); for v in LIST { out.push(BODY); } out }` (compact text of a statement run),
+/// or a call `helper(LIST, args..)` of a private free function of `file` whose body is one of these over its first
+/// parameter (parameters are replaced by the call's arguments).
+/// Returns (list text, BODY text with the element variable renamed to `_elem`).
+pub fn elementwise(text: &str, file: Option<&syn::File>) -> Option<(String, String)> {
+    use regex::Regex;
+    thread_local! {
+        static CHAIN: Regex = Regex::new(r"^(?P<list>[\w.]+)\.into_iter\(\)\.map\(\|(?P<v>\w+)\|(?P<body>.+)\)\.collect(?:::<.+>)?\(\)\??;?$").unwrap();
+        static LOOP: Regex = Regex::new(r"^\{?letmut(?P<out>\w+)(?::[^=]+)?=(?:Vec::with_capacity\([^;]*\)|Vec::new\(\)|vec!\[\]);for(?P<v>\w+)in(?P<list>[\w.]+)\{(?P<out2>\w+)\.push\((?P<body>.+)\);?\}(?P<tail>\w*)\}?;?$").unwrap();
+        static CALL: Regex = Regex::new(r"^(?P<f>\w+)\((?P<args>.*)\)\??;?$").unwrap();
+    }
+    let rename = |body: &str, v: &str| -> String {
+        let re = Regex::new(&format!(r"\b{}\b", regex::escape(v))).unwrap();
+        re.replace_all(body, "_elem").to_string()
+    };
+    if let Some(c) = CHAIN.with(|r| r.captures(text).map(|c| (c["list"].to_string(), c["v"].to_string(), c["body"].to_string()))) {
+        return Some((c.0, rename(&c.2, &c.1)));
+    }
+    if let Some(c) = LOOP.with(|r| r.captures(text).map(|c| (c["list"].to_string(), c["v"].to_string(), c["body"].to_string(), c["out"].to_string(), c["out2"].to_string(), c["tail"].to_string()))) {
+        if c.3 == c.4 && (c.5.is_empty() || c.5 == c.3) {
+            let body = c.2.trim_end_matches('?').to_string();
+            return Some((c.0, rename(&body, &c.1)));
+        }
+    }
+    if let (Some(file), Some((f, args))) = (file, CALL.with(|r| r.captures(text).map(|c| (c["f"].to_string(), c["args"].to_string())))) {
+        for it in &file.items {
+            if let syn::Item::Fn(func) = it {
+                if func.sig.ident == f && matches!(func.vis, syn::Visibility::Inherited) {
+                    let params: Vec<String> = func.sig.inputs.iter().filter_map(|a| if let syn::FnArg::Typed(pt) = a { Some(tsc(&pt.pat).trim_start_matches("mut").to_string()) } else { None }).collect();
+                    let args: Vec<&str> = args.split(',').collect();
+                    if params.len() != args.len() || params.is_empty() {
+                        return None;
+                    }
+                    let inner = tsc(&func.block);
+                    let inner = inner.strip_prefix('{').and_then(|x| x.strip_suffix('}')).unwrap_or(&inner).to_string();
+                    let (list, body) = elementwise(&inner, None)?;
+                    if list != params[0] {
+                        return None;
+                    }
+                    let mut body = body;
+                    for (p, a) in params.iter().zip(args.iter()).skip(1) {
+                        let re = Regex::new(&format!(r"\b{}\b", regex::escape(p))).unwrap();
+                        body = re.replace_all(&body, *a).to_string();
+                    }
+                    return Some((args[0].to_string(), body));
+                }
+            }
+        }
+    }
+    None
+}
+
 /// Every statement of `b` and of all nested blocks.
 pub fn for_each_stmt_in_block<'a>(b: &'a syn::Block, f: &mut dyn FnMut(&'a syn::Stmt)) {
     struct V<'a, 'f> {
@@ -138,13 +192,29 @@ pub fn for_each_stmt_in_block<'a>(b: &'a syn::Block, f: &mut dyn FnMut(&'a syn::
     V { f }.visit_block(b);
 }
 
-/// `if let P = S { A } else { B }` or its normal form `match S { P => { A }, _ => { B } }`.
+/// `if let P = S { A } else { B }` or its normal form `match S { P => A, _ => B }` (arm bodies may be bare
+/// expressions; they are presented as blocks).
 pub struct IfLet<'a> {
     pub pat: &'a syn::Pat,
     pub scrut: &'a syn::Expr,
-    pub then_block: &'a syn::Block,
+    pub then_block: std::borrow::Cow<'a, syn::Block>,
     /// None when there is no else branch (or it is empty)
-    pub else_block: Option<&'a syn::Block>,
+    pub else_block: Option<std::borrow::Cow<'a, syn::Block>>,
+}
+
+fn as_block(e: &syn::Expr) -> std::borrow::Cow<'_, syn::Block> {
+    match e {
+        syn::Expr::Block(b) if b.label.is_none() => std::borrow::Cow::Borrowed(&b.block),
+        other => std::borrow::Cow::Owned(syn::Block { brace_token: Default::default(), stmts: vec![syn::Stmt::Expr(other.clone(), None)] }),
+    }
+}
+
+fn is_empty_body(e: &syn::Expr) -> bool {
+    match e {
+        syn::Expr::Block(b) => b.block.stmts.is_empty(),
+        syn::Expr::Tuple(t) => t.elems.is_empty(),
+        _ => false,
+    }
 }
 
 pub fn if_let_form(e: &syn::Expr) -> Option<IfLet<'_>> {
@@ -152,38 +222,30 @@ pub fn if_let_form(e: &syn::Expr) -> Option<IfLet<'_>> {
         syn::Expr::If(i) => {
             let syn::Expr::Let(l) = &*i.cond else { return None };
             let else_block = match &i.else_branch {
-                Some((_, el)) => match &**el {
-                    syn::Expr::Block(b) if !b.block.stmts.is_empty() => Some(&b.block),
-                    syn::Expr::Block(_) => None,
-                    _ => return None,
-                },
+                Some((_, el)) if is_empty_body(el) => None,
+                Some((_, el)) => Some(as_block(el)),
                 None => None,
             };
-            Some(IfLet { pat: &l.pat, scrut: &l.expr, then_block: &i.then_branch, else_block })
+            Some(IfLet { pat: &l.pat, scrut: &l.expr, then_block: std::borrow::Cow::Borrowed(&i.then_branch), else_block })
         }
         syn::Expr::Match(m) => {
             if m.arms.len() != 2 || !matches!(m.arms[1].pat, syn::Pat::Wild(_)) || m.arms[0].guard.is_some() || matches!(m.arms[0].pat, syn::Pat::Wild(_)) {
                 return None;
             }
-            let syn::Expr::Block(tb) = &*m.arms[0].body else { return None };
-            let else_block = match &*m.arms[1].body {
-                syn::Expr::Block(b) if !b.block.stmts.is_empty() => Some(&b.block),
-                syn::Expr::Block(_) => None,
-                _ => return None,
-            };
-            Some(IfLet { pat: &m.arms[0].pat, scrut: &m.expr, then_block: &tb.block, else_block })
+            let else_block = if is_empty_body(&m.arms[1].body) { None } else { Some(as_block(&m.arms[1].body)) };
+            Some(IfLet { pat: &m.arms[0].pat, scrut: &m.expr, then_block: as_block(&m.arms[0].body), else_block })
         }
         _ => None,
     }
 }
 
-/// `while let P = S { body }` or its normal form `loop { match S { P => { body }, _ => break } }`:
+/// `while let P = S { body }` or its normal form `loop { match S { P => body, _ => break } }`:
 /// (scrutinee text, pattern text, body statements).
-pub fn loop_form(e: &syn::Expr) -> Option<(String, String, Vec<&syn::Stmt>)> {
+pub fn loop_form(e: &syn::Expr) -> Option<(String, String, Vec<syn::Stmt>)> {
     match e {
         syn::Expr::While(w) => {
             if let syn::Expr::Let(l) = &*w.cond {
-                Some((tsc(&l.expr), tsc(&l.pat), w.body.stmts.iter().collect()))
+                Some((tsc(&l.expr), tsc(&l.pat), w.body.stmts.clone()))
             } else {
                 None
             }
@@ -196,11 +258,7 @@ pub fn loop_form(e: &syn::Expr) -> Option<(String, String, Vec<&syn::Stmt>)> {
             if m.arms.len() != 2 || !matches!(m.arms[1].pat, syn::Pat::Wild(_)) || tsc(unblock(&m.arms[1].body)) != "break" {
                 return None;
             }
-            let body: Vec<&syn::Stmt> = match &*m.arms[0].body {
-                syn::Expr::Block(b) => b.block.stmts.iter().collect(),
-                _ => return None,
-            };
-            Some((tsc(&m.expr), tsc(&m.arms[0].pat), body))
+            Some((tsc(&m.expr), tsc(&m.arms[0].pat), as_block(&m.arms[0].body).stmts.clone()))
         }
         _ => None,
     }
